@@ -38,7 +38,15 @@ ToDyn(i) ==          \* consumes handle i, yields a trait-object handle onto the
   /\ i \in Live(handles) /\ handles[i] = "c" /\ variant \in DynListed
   /\ handles' = Append([handles EXCEPT ![i] = "x"], "d")
   /\ UNCHANGED <<value, alive, variant>>
-  /\ hist' = Rec([op |-> "to_dyn", h |-> i])
+  /\ hist' = Rec([op |-> "to_dyn", h |-> i, outcome |-> "converted"])
+(* On the variants to_dyn! does not list the outcome is unspecified: the macro may refuse (the documented unimplemented!() panic; *)
+(* the handle that was moved in is gone) or convert; if it converts, the result must be a handle like any other.               *)
+ToDynOther(i, outcome) ==
+  /\ i \in Live(handles) /\ handles[i] = "c" /\ variant \notin DynListed
+  /\ handles' = IF outcome = "converted" THEN Append([handles EXCEPT ![i] = "x"], "d") ELSE [handles EXCEPT ![i] = "x"]
+  /\ alive' = IF variant \in RefCounted /\ Live(handles') = {} THEN FALSE ELSE alive
+  /\ UNCHANGED <<value, variant>>
+  /\ hist' = Rec([op |-> "to_dyn", h |-> i, outcome |-> outcome])
 Write(i, v) ==
   /\ i \in Live(handles)
   /\ value' = v
@@ -58,6 +66,7 @@ DropH(i) ==
 Next == /\ n < MaxLen /\ n' = n + 1
         /\ \E i \in 1..Len(handles) :
               \/ Clone(i) \/ ToDyn(i) \/ Read(i) \/ DropH(i)
+              \/ ToDynOther(i, "refused") \/ ToDynOther(i, "converted")
               \/ Write(i, n + 1)            \* every write is distinguishable
 Spec == Init /\ [][Next]_vars
 
